@@ -204,6 +204,7 @@ class _:
     ensures = {
         "C08.remove-first-equal": "exists(p, 0 <= p < old(len(self._blocks)), old(self._blocks[p]) == blocks and forall(q, 0 <= q < p, not (old(self._blocks[q]) == blocks)) and removed_at(self, p))",
         "C08.remove-index": "implies(cls_is(blocks, 'Entry'), not (as_ref(blocks, 'ref:Entry')._key in self._entries_by_key) and content_unchanged(self._strings_by_key)) and implies(cls_is(blocks, 'String'), not (as_ref(blocks, 'ref:String')._key in self._strings_by_key) and content_unchanged(self._entries_by_key))",
+        "C08.index-only-shrinks": "forall(k, 'str', k in self._entries_by_key, old(k in self._entries_by_key) and same(self._entries_by_key[k], old(self._entries_by_key[k]))) and forall(k, 'str', k in self._strings_by_key, old(k in self._strings_by_key) and same(self._strings_by_key[k], old(self._strings_by_key[k])))",
         "C08.wf-held": "held_indexed(self)", "C08.wf-typed": "index_typed(self)", "C08.wf-once": "keyed_once(self)",
     }
     raises = {"ValueError": {"when": "forall(q, 0 <= q < len(self._blocks), not (self._blocks[q] == blocks))",
